@@ -25,6 +25,8 @@ EventOK(ev) ==
   /\ \/ ev.outcome = "panic"
      \/ \A i \in 1..Len(ev.roles) :
           ev.roles[i].changed => ev.roles[i].role \in Rng(MayModify(EntryOf(ev), ev.mode))
+  /\ \/ ev.outcome = "panic"
+     \/ ev.shared = <<>>      \* logged pairs of roles (IS~input, source~clone) whose share set was not empty
 
 TStep == /\ l <= Len(Trace)
          /\ EventOK(Trace[l])
